@@ -177,6 +177,11 @@ let judge (line : string) : string =
      | _ -> fails := !fails @ relabel "e" (check_res p !tol exact "warm" warm));
     (match wadd with
      | Skipped -> ()
-     | _ -> fails := !fails @ relabel "f" (check_res p !tol exact "wadd" wadd))
+     | _ -> fails := !fails @ relabel "f" (check_res p !tol exact "wadd" wadd));
+    (* the same after dropping the last two / three rows (absent in lines written before these were added) *)
+    List.iter (fun l ->
+        match (try Some (List.assoc l rs) with Not_found -> None) with
+        | None | Some Skipped -> ()
+        | Some w -> fails := !fails @ relabel "f" (check_res p !tol exact l w)) ["wadd2"; "wadd3"]
   end;
   if !fails = [] then "ok" else String.concat " & " !fails
